@@ -57,6 +57,7 @@ func New(conf config.Config) *Server {
 
 type Server struct {
 	mu            sync.Mutex
+	referrerMu    sync.Mutex // serializes the read-modify-write of referrers responses
 	conf          config.Config
 	store         store.Store
 	log           *slog.Logger
